@@ -230,6 +230,35 @@ def gen_case(rng: Any, exc: list[str] | None, site: str, exc_log: bool = False) 
     return kind, prog, sc, info
 
 
+ROUTES = ["unary", "init_producer", "init_exchange", "exchange_first", "exchange_later", "producer_first", "producer_continuation"]
+
+
+def grid_case(cls: str, route: str, msg: str, header: bool) -> tuple[str, dict[str, Any], list[Any], dict[str, Any]]:
+    """Deterministic class x HTTP-route grid: the exception is raised at the dispatch site served by that route kind
+    (/{m}, /{m}/init for a producer or an exchange, an /exchange lockstep turn k = 0 / k = 2, the producer turn folded
+    into /init, a producer continuation turn on /exchange)."""
+    exc = [cls, msg]
+    info: dict[str, Any] = {"site": "grid:" + route, "exc": exc, "reached": True}
+    if route == "unary":
+        return "unary", {"logs": [["INFO", "before", {}]], "result": {"raise": exc}}, ["unary"], info
+    ok = {"logs": [["DEBUG", "ok", {}]], "emit": {"rows": 2, "meta": None}, "finish": False, "raise": None}
+    bad = {"logs": [["WARN", "about to fail", {}]], "emit": None, "finish": False, "raise": exc}
+    kind = "exchange" if "exchange" in route else "producer"
+    prog: dict[str, Any] = {"init_logs": [["INFO", "init", {}]], "init": "ok", "header": 5, "steps": []}
+    n = 1
+    if route.startswith("init_"):
+        prog["init"] = {"raise": exc}
+        prog["steps"] = [dict(ok)]
+    elif route in ("exchange_first", "producer_first"):
+        prog["steps"] = [bad, dict(ok)]
+    else:
+        prog["steps"] = [dict(ok), dict(ok), bad]
+        n = 3
+    method = kind + ("_h" if header else "")
+    sc = ["iterate", method, None, 0, "stop"] if kind == "producer" else ["exchange", method, None, n, "close"]
+    return kind, prog, sc, info
+
+
 def norm_msg(m: str) -> str:
     return CAP_MSG.sub("HTTP body exceeds max_response_bytes", m)
 
@@ -279,7 +308,7 @@ def run(ctx: Any) -> None:
 
     ctx.rule = ("Layer A: case = (exception class, message, server id, request id, chain none/cause/context) through the real "
                 "_write_error_batch/_dispatch_log_or_error. Layer S/H: case = (exception class, message, site in unary/init/first/later/"
-                "after_emit/validate/none, logs before, method shape, script) over pipe, unix and HTTP x cap {None,1,1e7}; distinct by "
+                "after_emit/validate/none, logs before, method shape, script) over pipe, unix and HTTP x cap {None,1,1e7}, plus the deterministic grid every class x HTTP route kind {unary, init of a producer / an exchange, exchange turn k=0 / k=2, producer turn inside /init, producer continuation} over HTTP; distinct by "
                 "(class, message, site, program, script); non-trivial = an exception is raised (or a failing validate)")
 
     # ======================================================================== Layer A
@@ -374,6 +403,19 @@ def run(ctx: Any) -> None:
         sc = [sc[0], pid] if sc[0] == "unary" else [sc[0], sc[1], pid, sc[3], sc[4]]
         cases.append({"pid": pid, "kind": kind, "prog": prog, "script": sc, "info": info, "exc_log": exc_log})
 
+    # class x route grid, HTTP only (the status / marker decision is taken per route and may depend on the class: every
+    # class -- built-in, subclasses of the classes the request-reading handlers name, user-defined, typed -- at every route)
+    n_grid = 0
+    for ci, cls in enumerate(classes):
+        for ri, route in enumerate(ROUTES):
+            pid += 1
+            kind, prog, sc, info = grid_case(cls, route, MESSAGES[(ci + ri) % 4] if (ci + ri) % 5 else "grid boom", bool((ci + ri) % 2))
+            I.register(pid, prog)
+            sc = [sc[0], pid] if sc[0] == "unary" else [sc[0], sc[1], pid, sc[3], sc[4]]
+            cases.append({"pid": pid, "kind": kind, "prog": prog, "script": sc, "info": info, "exc_log": False, "grid": route})
+            n_grid += 1
+    ctx.count("grid_cases", n_grid)
+
     caps: list[int | None] = [None, 1, BIG]
     m_pipe: list[tuple[str, str]] = []
     m_http: list[tuple[str, str]] = []
@@ -422,7 +464,10 @@ def run(ctx: Any) -> None:
         cmp_triple = "false" if c["exc_log"] else "true"
         # ---- socket family
         pipe_tr = None
-        for tk in ("pipe", "unix"):
+        grid = c.get("grid")
+        if grid:
+            ctx.tally("grid_route", grid)
+        for tk in (() if grid else ("pipe", "unix")):
             tr, err = split_trace(D.run_socket(tk, sc))
             ctx.count("impl_runs")
             if any(e[0] in ("blocked", "client_exc") for e in tr):
@@ -432,12 +477,13 @@ def run(ctx: Any) -> None:
                 pipe_tr = (tr, err)
             elif (tr, err[:5] if err else None) != (pipe_tr[0], pipe_tr[1][:5] if pipe_tr[1] else None):
                 ctx.violation("socket-transports-differ", "pipe and unix observe differently", {**repl, "pipe": pipe_tr[0][-3:], "unix": tr[-3:]})
-        tr, err = pipe_tr  # type: ignore[misc]
-        tri = "None" if c["exc_log"] else c_triple(None if err is None else (err[1], norm_msg(err[2]), kind_of_exposed(err[3])))
-        m_pipe.append((f"({cmp_triple}, {ps})", f"({c_trace7(tr)}, {tri}, true)"))
-        keys_p.append({**repl, "transport": "pipe", "impl_trace_tail": [e[:3] if e[0] != "error" else [e[0], e[1], e[2][:200]] for e in tr[-3:]], "impl_error_kind": None if err is None else repr(err[3])})
+        if pipe_tr is not None:
+            tr, err = pipe_tr
+            tri = "None" if c["exc_log"] else c_triple(None if err is None else (err[1], norm_msg(err[2]), kind_of_exposed(err[3])))
+            m_pipe.append((f"({cmp_triple}, {ps})", f"({c_trace7(tr)}, {tri}, true)"))
+            keys_p.append({**repl, "transport": "pipe", "impl_trace_tail": [e[:3] if e[0] != "error" else [e[0], e[1], e[2][:200]] for e in tr[-3:]], "impl_error_kind": None if err is None else repr(err[3])})
         # ---- HTTP
-        for cap in caps:
+        for cap in ([None] if grid else caps):
             tr, resps = D.run_http(cap, sc)
             tr, err = split_trace(tr)
             ctx.count("impl_runs")
@@ -450,7 +496,9 @@ def run(ctx: Any) -> None:
                 ebs = D.error_batches(r["body"])
                 marker = r["marker"] is not None
                 obs.append((r["status"], marker, bool(ebs)))
-                rr = {**repl, "cap": cap, "url": r["url"], "status": r["status"], "marker": r["marker"], "error_batches": len(ebs)}
+                route_kind = "unary" if kind == "unary" else ("init" if r["url"].endswith("/init") else ("exchange-turn" if kind == "exchange" else "producer-continuation"))
+                ctx.tally("http_route", route_kind + ("/failed" if ebs else "/ok"))
+                rr = {**repl, "cap": cap, "url": r["url"], "route_kind": route_kind, "status": r["status"], "marker": r["marker"], "error_batches": len(ebs)}
                 ctx.tally("http_response", f"{r['status']}/{'marker' if marker else 'plain'}/{'err' if ebs else 'ok'}")
                 if r["status"] != 200:
                     ctx.violation("http-dispatched-call-status-not-200", "a dispatched call was answered with a status other than 200", rr)
@@ -461,6 +509,9 @@ def run(ctx: Any) -> None:
                 for eb in ebs:
                     if facts is not None and reached and not cap_hit and facts[2] is not None and eb["md"].get("vgi_rpc.error_kind") != facts[2]:
                         ctx.violation("error-kind-not-carried-on-the-wire", "vgi_rpc.error_kind missing / different on the HTTP error batch", {**rr, "kind": facts[2]})
+            if reached and not cap_hit and not c["exc_log"] and obs and obs[-1] != (200, True, True):
+                ctx.violation("http-failed-dispatch-not-200-marker-error-batch", "the response of the failed dispatched call is not 200 + X-VGI-RPC-Error + error batch",
+                              {**repl, "cap": cap, "url": resps[-1]["url"], "last_response": obs[-1]})
             if reached and not cap_hit and not c["exc_log"] and not any(o[1] for o in obs):
                 ctx.violation("http-error-response-without-marker", "the implementation raised but no response of the call carries the marker", {**repl, "cap": cap, "responses": obs})
             hs = f"({cmp_triple}, ({c_cap(cap)}, {ps}))"
